@@ -257,6 +257,61 @@ func runC17(res *lib.Result, tier string, seed int64, args []string) error {
 			res.AddViolation("model-vs-spec", "theorem flags_exact contradicted by evaluation", line, false)
 		}
 	}
+	// ---------------- unit: per-file type rules (IgnoreFileErrTypes), several of which may match one file ----------------
+	for i := 0; i < nUnit/4; i++ {
+		r := root.Fork(uint64(8800000 + i))
+		common.GlobalConfigDefautInit()
+		common.GConfig.IntialGlobalVar()
+		everyOn := make([]bool, 26)
+		for k := range everyOn {
+			everyOn[k] = true
+		}
+		common.GConfig.HandleChangeCheckList(everyOn, nil, nil)
+		common.GConfig.IgnoreFileErrTypesMap = map[string](map[int]bool){}
+		common.GConfig.IgnoreFileErrTypesRegexp = map[string]*regexp.Regexp{}
+		file := filepath.Join("/ws", []string{"main.lua", "m2.lua", "sub/dir/other.lua", "other.lua"}[r.Intn(4)])
+		var parts []string
+		used := map[string]bool{}
+		for k := 1 + r.Intn(4); k > 0; k-- {
+			rf := c17RuleFiles[r.Intn(len(c17RuleFiles))]
+			if used[rf] {
+				continue
+			}
+			used[rf] = true
+			tm := map[int]bool{}
+			var ts []string
+			for n := 1 + r.Intn(3); n > 0; n-- {
+				t := 1 + r.Intn(8)
+				if !tm[t] {
+					tm[t] = true
+					ts = append(ts, fmt.Sprint(t))
+				}
+			}
+			common.GConfig.IgnoreFileErrTypesMap[rf] = tm
+			m := "0"
+			if re, err := regexp.Compile(rf); err == nil {
+				common.GConfig.IgnoreFileErrTypesRegexp[rf] = re
+				if re.MatchString(file) {
+					m = "1"
+				}
+			}
+			parts = append(parts, lib.Hex([]byte(rf))+":"+m+"="+strings.Join(ts, "."))
+		}
+		ty := 1 + r.Intn(8)
+		line := fmt.Sprintf("confrules %s %s %d", strings.Join(parts, ";"), lib.Hex([]byte(file)), ty)
+		ans, err := drv.Ask(line)
+		if err != nil {
+			return err
+		}
+		iIgn := common.GConfig.IsIgnoreErrorFile(file, common.CheckErrorType(ty))
+		res.Count(line, len(parts) > 1)
+		res.Dist(fmt.Sprintf("unit.rules%d", len(parts)))
+		if (ans == "R ign=1") != iIgn {
+			res.AddViolation("impl-vs-model", fmt.Sprintf("IsIgnoreErrorFile=%v under the per-file type rules, model answers %q (a diagnostic is silenced iff SOME matching rule names its type)", iIgn, ans), line, false)
+		}
+	}
+	common.GlobalConfigDefautInit()
+	common.GConfig.IntialGlobalVar()
 	// malformed regex: separate stream (former finding K4, repaired by a72bfd6: must not panic again)
 	func() {
 		defer func() {
@@ -316,7 +371,7 @@ func runC17(res *lib.Result, tier string, seed int64, args []string) error {
 		// a file / folder rule that removes the ANALYSIS of the matching files (IgnoreFileOrDir in the client
 		// settings, IgnoreFileOrFloder in luahelper.json); only files nothing else depends on are named
 		skipRule := ""
-		if i >= len(suspects) && channel != 1 && r.Chance(1, 2) {
+		if i >= len(suspects) && r.Chance(1, 2) {
 			skipRule = c17SkipRules[r.Intn(len(c17SkipRules))]
 		}
 		jsonPath := filepath.Join(dir, "luahelper.json")
@@ -331,12 +386,17 @@ func runC17(res *lib.Result, tier string, seed int64, args []string) error {
 		case 1:
 			sess, err = lib.StartSession(dir, optsFromFlags(allOn, nil))
 			if err == nil {
+				// the two rule lists of a settings change: error-ignore patterns and analysis-ignore patterns
+				skipList := []string{}
+				if skipRule != "" {
+					skipList = append(skipList, skipRule)
+				}
 				warn := map[string]interface{}{}
 				for k, n := range lib.CheckFlagNames {
 					warn[n] = fl[k]
 				}
 				settings := map[string]interface{}{"settings": map[string]interface{}{"luahelper": map[string]interface{}{
-					"base": map[string]interface{}{"IgnoreFileOrDirError": pats}, "Warn": warn}}}
+					"base": map[string]interface{}{"IgnoreFileOrDirError": pats, "IgnoreFileOrDir": skipList}, "Warn": warn}}}
 				// VS Code always sends one didChangeConfiguration at start-up, which the server swallows by design
 				sess.Notify("workspace/didChangeConfiguration", map[string]interface{}{"settings": map[string]interface{}{"luahelper": map[string]interface{}{"base": map[string]interface{}{}, "Warn": map[string]interface{}{}}}})
 				sess.Sync()
@@ -366,6 +426,23 @@ func runC17(res *lib.Result, tier string, seed int64, args []string) error {
 				}
 				sort.Ints(tys)
 				usedFile := map[string]bool{}
+				if r.Chance(1, 3) {
+					// two rules that both match one file, each naming types the other does not: they combine
+					var ot []int
+					seenT := map[int]bool{}
+					for _, d := range baseline {
+						if d.file == "sub/dir/other.lua" && !seenT[d.ty] {
+							seenT[d.ty] = true
+							ot = append(ot, d.ty)
+						}
+					}
+					sort.Ints(ot)
+					if len(ot) >= 2 {
+						k := r.Intn(len(ot) - 1)
+						rules = append(rules, c17Rule{file: "sub/", types: ot[:k+1]}, c17Rule{file: "sub/dir/other.lua", types: ot[k+1:]})
+						usedFile["sub/"], usedFile["sub/dir/other.lua"] = true, true
+					}
+				}
 				for k := 1 + r.Intn(3); k > 0; k-- {
 					rule := c17Rule{file: c17RuleFiles[r.Intn(len(c17RuleFiles))]}
 					if usedFile[rule.file] {
